@@ -88,10 +88,8 @@ func (s *JobSim) relaunch() {
 				case TFailed, TBlocked:
 					blocked = true
 				case TCanceled:
-					// a canceled task that allows failure ends "done" for the scheduler, otherwise it is an error
-					if !s.Tasks[d].AllowFailure {
-						blocked = true
-					}
+					// a canceled task is an error for the scheduler also if it allows failure
+					blocked = true
 				default:
 					ready = false
 				}
@@ -281,9 +279,7 @@ func (s *JobSim) Verdict() Verdict {
 		case TCanceled:
 			anyCanceledTask = true
 			allOK = false
-			if !t.AllowFailure {
-				anyCanceledErr = true
-			}
+			anyCanceledErr = true // the scheduler returns the error of a canceled task also if the task allows failure
 			v.TaskStatus[n] = []string{"canceled"}
 		case TBlocked:
 			allOK = false
